@@ -25,6 +25,7 @@ func TestBytesFilter(t *testing.T) {
 	rapid.Check(t, func(rt *rapid.T) {
 		size := rapid.IntRange(1, 4).Draw(rt, "size")
 		h := newHist(check, fmt.Sprintf("size=%d", size))
+		defer h.guard(rt)
 		f := bytesfilter.New[[32]byte](bfID, size)
 		var fifo []int // universe indices, oldest first
 		evicted := map[int]struct{}{}
